@@ -54,7 +54,7 @@ func verifH_C10_journal_dataloss() {
 	verifUnwind(64)
 	n := verifNondetInt("n")
 	verifAssume(0 <= n)
-	verifAssume(n <= verifBoundJournalBytes)
+	verifAssume(n <= verifBoundDataLossBytes)
 	n = verifConcrete(n, 64)
 	buf := verifNondetBytes("journal", n)
 	off, err := processJournalRecords(context.Background(), "journal", bytes.NewReader(buf), false, 0, func(o int64, r journalRec) error {
